@@ -5,3 +5,114 @@ Example C16_model_smoke :
   snd (crun (init_client 1 true) [Issue 1; Issue 2; PeerReply 2; PeerReply 1; PeerReply 1; PeerReply 2])
   = [[Written 1]; []; [Ignored 2]; [Completed 1; Written 2]; [Ignored 1]; [Completed 2]].
 Proof. vm_compute. reflexivity. Qed.
+
+(* ---- theorems (types pasted verbatim from Proofs/ClientProofs.v by tools/pin.py) ---- *)
+From NW Require Import Proofs.ClientProofs.
+
+Theorem C16_invariant_all_histories :
+  forall (k : nat) (rel : bool) (h : list (list N * cev)),
+    fresh_hist (init_client k rel) h -> CInv (fst (crun_pick (init_client k rel) h)).
+Proof. exact cinv_run_init. Qed.
+
+Theorem C16_own_reply :
+  forall (pick : list N) (s : cstate) (e : cev) (id : N),
+    In (Completed id) (snd (cstep_pick pick s e)) ->
+    e = PeerReply id /\ broken s = false /\ sender_present id (pending s) = true.
+Proof. exact C16_own_reply_only. Qed.
+
+Theorem C16_no_cross :
+  forall (pick : list N) (s : cstate) (i j : N),
+    i <> j -> ~ In (Completed i) (snd (cstep_pick pick s (PeerReply j))).
+Proof. exact C16_no_cross_attribution. Qed.
+
+Theorem C16_duplicates_ignored :
+  forall (pick pick' : list N) (s : cstate) (e : cev) (id : N),
+    CInv s ->
+    In (Completed id) (snd (cstep_pick pick s e)) ->
+    let s' := fst (cstep_pick pick s e) in
+    cstep_pick pick' s' (PeerReply id) = (s', [Ignored id]).
+Proof. exact C16_duplicate_reply_ignored. Qed.
+
+Theorem C16_late_ignored :
+  forall (pick pick' : list N) (s : cstate) (e : cev) (id : N),
+    CInv s ->
+    In (TimedOut id) (snd (cstep_pick pick s e)) ->
+    let s' := fst (cstep_pick pick s e) in
+    cstep_pick pick' s' (PeerReply id) = (s', if broken s' then [] else [Ignored id]).
+Proof. exact C16_late_reply_ignored. Qed.
+
+Theorem C16_resolved_final :
+  forall (pick : list N) (s : cstate) (e : cev) (id : N) (h : list (list N * cev)),
+    CInv s ->
+    In (Completed id) (snd (cstep_pick pick s e)) \/
+    In (TimedOut id) (snd (cstep_pick pick s e)) ->
+    (forall p : list N, ~ In (p, Issue id) h) ->
+    forall o : list cout,
+    In o (snd (crun_pick (fst (cstep_pick pick s e)) h)) -> ~ In (Completed id) o.
+Proof. exact C16_resolved_is_final. Qed.
+
+Theorem C16_window_bound :
+  forall (k : nat) (rel : bool) (h1 h2 : list (list N * cev)),
+    fresh_hist (init_client k rel) (h1 ++ h2) ->
+    (Datatypes.length (pending (fst (crun_pick (init_client k rel) h1))) <= k)%nat.
+Proof. exact C16_window_run. Qed.
+
+Theorem C16_written_means_registered :
+  forall (pick : list N) (s : cstate) (e : cev) (id : N),
+    CInv s ->
+    (forall j : N, e = Issue j -> fresh s j) ->
+    In (Written id) (snd (cstep_pick pick s e)) ->
+    let s' := fst (cstep_pick pick s e) in
+    (e = Issue id \/ In id (waiting s)) /\
+    ~ In id (map e_id (pending s)) /\
+    sender_present id (pending s') = true /\
+    broken s' = false /\ (Datatypes.length (pending s') <= max_inflight s')%nat.
+Proof. exact C16_written_registers. Qed.
+
+Theorem C16_no_hang :
+  forall (pick : list N) (s : cstate) (id : N),
+    CInv s ->
+    In id (map e_id (pending s) ++ waiting s) ->
+    let s' := fst (cstep_pick pick s (Timeout id)) in
+    In (TimedOut id) (snd (cstep_pick pick s (Timeout id))) /\
+    ~ In id (waiting s') /\
+    (releases_on_timeout s = true -> ~ In id (map e_id (pending s'))) /\
+    sender_present id (pending s') = false.
+Proof. exact C16_timeout_resolves. Qed.
+
+Theorem C16_capacity :
+  forall (k : nat) (h : list (list N * cev)) (b : list (list N * N)),
+    let s0 := init_client k true in
+    fresh_hist s0 h ->
+    all_resolved h (snd (crun_pick s0 h)) ->
+    (Datatypes.length b <= k)%nat ->
+    let s := fst (crun_pick s0 h) in
+    pending s = [] /\
+    waiting s = [] /\
+    permits s = k /\
+    snd (crun_pick s (issue_batch b)) = map (fun pi : list N * N => [Written (snd pi)]) b.
+Proof. exact C16_capacity_restored_run. Qed.
+
+Theorem C16_leak_refuted :
+  forall p1 p2 p3 p4 : list N,
+    snd
+      (crun_pick (init_client 1 false)
+         [(p1, Issue 1); (p2, Timeout 1); (p3, Issue 2); (p4, PeerReply 2)]) =
+    [[Written 1]; [TimedOut 1]; []; [Ignored 2]].
+Proof. exact C16_timeout_leak_refuted. Qed.
+
+Theorem C16_ids_distinct :
+  forall (i j : nat) (c : N),
+    c < 4294967296 ->
+    (1 <= i)%nat ->
+    (i < j)%nat -> N.of_nat (j - i) < 4294967295 -> Nat.iter i next_id c <> Nat.iter j next_id c.
+Proof. exact next_id_injective_window. Qed.
+
+Theorem C16_ids_nonzero :
+  forall c : N, c < 4294967296 -> next_id c <> 0 /\ next_id c < 4294967296.
+Proof. exact next_id_nonzero. Qed.
+
+Theorem C16_ping :
+  forall (pick : list N) (s : cstate) (id : N),
+    broken s = false -> cstep_pick pick s (PeerPing id) = (s, [Pong id]).
+Proof. exact C16_ping_pong. Qed.
